@@ -106,6 +106,18 @@ def _cfg(case):
 def run_case(case, ob, tier):
     block = designs.build(case)
     K = case['K']
+    # ROM instances that build_new_roms created behind the scenes are the ROM the user declared (the oracle below reads each
+    # instance's own attributes, so a copy that differs from its original would otherwise be taken at its word)
+    groups = {}
+    for n_ in block.logic_subset('m'):
+        m_ = n_.op_param[1]
+        if isinstance(m_, pyrtl.RomBlock):
+            groups.setdefault(m_.name, {})[id(m_)] = m_
+    for name_, ms_ in groups.items():
+        if len(ms_) > 1:
+            sig_ = {(m_.bitwidth, m_.addrwidth, m_.asynchronous, m_.pad_with_zeros, id(m_.data)) for m_ in ms_.values()}
+            ob.fact('further-ROM-instances-equal-the-declared-ROM:%s' % name_, len(sig_) == 1, 'C01:%s:rom-instances' % _site(case),
+                    detail=sorted(map(str, sig_)))
     v = Vars()
     cfg = _cfg(case)
     sp = spec.run(block, K, v, **cfg)
